@@ -266,6 +266,11 @@ ROUND11 = {
  "C12": "E12 NILSAFE: forward must-non-nil dataflow per function over the fields the module itself treats as optional (nil tests / nil stores) and over maps not made at every creation, with entry facts from all call sites and closure creations (greatest fixpoint), kill on calls that may clear, error-checked results, companion fields and correlated merges",
  "C16": "E12 nil-safety on every peer-driven function; per-connection channels not shared (from C10); accept loops park on nothing (no channel operation, WaitGroup or Cond wait directly or below any call they make)",
 }
+# round 14 (DESIGN 8.5, round 14)
+ROUND14 = {
+ "C10": "additions-tested-against-close: an entry is appended to a list that the owner's Close sweeps and empties only under a test, dominating the append with no Unlock in between, of a flag that Close sets (SSA dominators; found D19)",
+ "C18": "the best-effort test on the deadline arm is the same SSA value that chose the timer source before the wait (a second reading of the option is refused)",
+}
 # rule families added after seeded round 12 (DESIGN 8.5, round 12)
 ROUND12 = {
  "C07": "who may arm the survey timer (timer table, from C10)",
@@ -297,6 +302,8 @@ for k, (t, x) in EXTRA.items():
         r8 = (r8 + "; " if r8 else "") + "after round 11: " + ROUND11[k]
     if ROUND12.get(k):
         r8 = (r8 + "; " if r8 else "") + "after round 12: " + ROUND12[k]
+    if ROUND14.get(k):
+        r8 = (r8 + "; " if r8 else "") + "after round 14: " + ROUND14[k]
     CLAIMED[k] = (tech + t + ("; shared mechanisms decided where they are anchored and imported: " + imp if imp else "") + ("; added after seeded rounds 6-7: " + r67 if r67 else "") + ("; added after seeded round 8: " + r8 if r8 else ""), text + x, note, ref)
 
 NOT_YET = "check not built yet (work in progress; planned static rules in DESIGN.md section 4)"
